@@ -7,6 +7,10 @@ CLAIMED = {
    text="Seeded deterministic simulation of the real rob.ReorderBuffer between a scripted requester, an adversarial memory stub and a control agent over fault-injecting connections; online oracle over the complete port history (order, exactly-once, payload, forwarding, occupancy, flush semantics, liveness at quiescence). Exploration: a clean batch is evidence over the sampled (configuration, schedule, fault sequence) space, not proof.",
    note="Trusted: akita sim.Port/Buffer semantics, the harness's own stubs and oracle; links reliable and FIFO per pair (DESIGN 4.2); request classification around flush/restart as defined in DESIGN C15.",
    ref="6 (C15)"),
+ "C16": dict(
+   text="Seeded deterministic simulation of the real addresstranslator.Comp between a scripted requester, an adversarial translation service (several PIDs mapping one virtual page to different physical pages), one or two adversarial memories behind the component's own port mapper and a control agent, over fault-injecting connections; online oracle over the port history (physical address = own PID's page base + offset, payload unchanged, forwarded exactly once to the owning memory, answered exactly once with original id and memory's data, flush semantics, liveness). Exploration, not proof.",
+   note="Trusted: akita ports and port mappers as executed, the harness's stubs and oracle; one page per access; links reliable and FIFO per pair; request classification around flush/restart as in C15.",
+   ref="6 (C16)"),
  "C17": dict(
    text="Seeded deterministic simulation of the real simplebankedmemory.Comp under a swarm of configurations (banks, interleave, pipeline width/depth/latency, row tracking, buffer sizes, address converters, incl. the shipped MI300A parameter set) with 1-2 scripted requesters over a fault-injecting connection; oracle = flat byte-array model applied in arrival order (exactly-one response, per-byte read values, masked writes, final storage, liveness). One genuine defect found and repaired (fix: commit), one recorded as known finding (pipeline width>1). Exploration, not proof.",
    note="Trusted: akita ports/pipelining/storage as executed, the harness's stubs and model; accesses stay inside one 64-byte block (what caches issue), so overlapping accesses share a bank; known findings listed in known_findings.json are reported as KNOWN-FINDING, anything else is a VIOLATION.",
@@ -31,7 +35,6 @@ PENDING = {
  "C11": "check not built yet (planned: copy sequences against a shadow byte array, DESIGN 6 C11)",
  "C12": "check not built yet (planned: driver threads under the controlled goroutine scheduler, DESIGN 6 C12)",
  "C14": "check not built yet (planned: CU in a box, DESIGN 6 C14)",
- "C16": "check not built yet (planned: real addresstranslator.Comp with adversarial stubs, DESIGN 6 C16)",
  "C18": "check not built yet (planned: RDMA ring + multi-GPU whole platform, DESIGN 6 C18)",
  "C19": "check not built yet (planned: PMC ring + driver handshake, DESIGN 6 C19)",
  "C20": "check not built yet (planned: nvidia trace-driven platform on the seeded engine, DESIGN 6 C20)",
